@@ -13,16 +13,21 @@
      the arguments (and the function's default-argument objects) were bit-for-bit unchanged by the call.
      holds = all results equal /\ nothing mutated /\ no NameError / AttributeError / arity TypeError (encoding 7, 1, ..).
      Purity, determinism and layout independence hold of any Gallina model by construction; this part is TESTED.
-   * CImport: `import kneeliverse` succeeded. *)
+   * CImport: `import kneeliverse` succeeded.
+   * CRefine: one public function that no property C01-C19 models (evaluation.get_neighbourhood*, accuracy_*, knee_ranking.slope_ranking,
+     linear_fit.linear_hv_residuals*, linear_fit_transform*, angle) on one generated input, judged by Run/JudgeC20X.v against the pure
+     Gallina function of Model/Extras.v (agree: bit for bit) and with the predicates of the C20_refine_* theorems (holds). *)
 From Coq Require Import ZArith List Bool Arith.
 From Coq Require Export String.   (* the generated case files write identifiers as "..."%string *)
 From Knee Require Export Model.Linking.
+From Knee Require Export Run.JudgeC20X.   (* its constructors X... are written by harness/c20x.py inside CRefine; `case` / `judge` / `show` are re-defined below *)
 Import ListNotations.
 
 Inductive case :=
   | CLink (p : program) (live : option bool)
   | CDyn (fn : string) (runs : list (nat * bool * list Z))
   | CImport (ok : bool)
+  | CRefine (x : JudgeC20X.case)
   | CSkip.
 
 (* result code = 100 * agree + holds  (agree: 0 same verdict as CPython, 1 differs, 5 no live verdict, 6 not a case) *)
@@ -45,18 +50,20 @@ Definition judge (c : case) : Z :=
       | _ => Z.of_nat (dyn_holds runs)
       end
   | CImport ok => if ok then 0%Z else 1%Z
+  | CRefine x => JudgeC20X.judge x
   | CSkip => 600%Z
   end.
 
-(* for replay files: where the reference stands and its diagnosis / the verdict per re-presentation *)
-Definition show (c : case) : list (string * string * nat * ref * nat) * list (nat * bool * bool) :=
+(* for replay files: where the reference stands and its diagnosis / the verdict per re-presentation / the Gallina function's own outputs *)
+Definition show (c : case) : list (string * string * nat * ref * nat) * list (nat * bool * bool) * (list nat * list (list PrimFloat.float)) :=
   match c with
   | CLink p live =>
-      (map (fun lr => let '(m, s, ln, r) := lr in (m_name m, sc_name s, ln, r, diagnose_lref p lr)) (refs p), [])
+      (map (fun lr => let '(m, s, ln, r) := lr in (m_name m, sc_name s, ln, r, diagnose_lref p lr)) (refs p), [], ([], []))
   | CDyn fn runs =>
       ([], match runs with
            | [] => []
            | (_, _, r0) :: _ => map (fun tur => let '(t, u, r) := tur in (t, u, zlist_eqb r r0)) runs
-           end)
-  | _ => ([], [])
+           end, ([], []))
+  | CRefine x => ([], [], JudgeC20X.show x)
+  | _ => ([], [], ([], []))
   end.
